@@ -102,3 +102,26 @@ pub fn run_passes(cfg: &Cfg) -> Result<Vec<Report>, PanicInfo> {
         reports
     })
 }
+
+/// Route (B): the definition is written to a real file, loaded with `AnalysisRunner::with_files`
+/// (parse_files, desugaring, `TemplateData` / `FunctionData`, definition merger when a main
+/// component is present) and lifted by the runner itself; returns the SSA CFG the passes see.
+pub fn lift_via_runner(src: &str, dir: &std::path::Path, name: &str, function: bool, with_main: bool) -> Result<Cfg, LiftError> {
+    let text = if with_main && !function {
+        // No pragma line: spans in the file equal spans in `src`.
+        format!("{src}\ncomponent main = {name}(1);\n")
+    } else {
+        src.to_string()
+    };
+    let files = crate::sut::runner::write_project(dir, &[("r.circom", &text)]);
+    let mut loaded = match crate::sut::runner::load(&files, &[], Curve::Bn254) {
+        Ok(l) => l,
+        Err(info) => return Err(LiftError::Panic { stage: Stage::Parse, info }),
+    };
+    let r = catch(|| if function { loaded.runner.take_function(name) } else { loaded.runner.take_template(name) });
+    match r {
+        Ok(Ok(cfg)) => Ok(cfg),
+        Ok(Err(e)) => Err(LiftError::Rejected { stage: Stage::Ssa, message: format!("{e}") }),
+        Err(info) => Err(LiftError::Panic { stage: Stage::Ssa, info }),
+    }
+}
